@@ -5,7 +5,7 @@ import ast
 from typing import Dict, List, Set
 
 from ..callgraph import callgraph
-from ..cfg import CFG, cfg_of, dominating_edges, must_reach, node_calls, nodes_dominate, reach
+from ..cfg import CFG, cfg_of, dominating_edges, edges_dominate, must_reach, node_calls, nodes_dominate, reach
 from ..defuse import def_value, reaching_defs, resolve_alias
 from ..esp import run_method, val_str, valuations
 from ..model import Class, Func, Repo, ancestors, attr_chain, body_nodes, norm, parent, short
@@ -37,6 +37,7 @@ def check(repo: Repo, rep, tier):
 
     element_parens(repo, rep)
     kwarg_position(repo, rep)
+    node_none_guard(repo, rep)
 
 
 SESSION_END = ("_get_changes", "_new_code")
@@ -964,3 +965,59 @@ def kwarg_position(repo: Repo, rep):
                 construct=f"{s.func.qualname}:kw-position",
             )
     rep.floor("R-KWARG-POSITION", "keyword CallArg emission sites", n, 1)
+
+
+def node_none_guard(repo: Repo, rep):
+    rep.rule(
+        "R-NODE-NONE-GUARD",
+        "a snapshot created from code without source (eval / exec / a compiled string) has no AST node: every `_token_of_node(<node>)` call in the adapters "
+        "and snapshot values is dominated by a test that this very node is not None (`<node> is not None` true, `<node> is None` false, or the node's "
+        "truthiness) - a test of something else that merely happens to be None in the same situations (`self._file._source`) does not protect it: executing "
+        "still returns a Source object for such frames, and the call raises AttributeError at session end for every flag combination",
+    )
+    n = 0
+    for f in repo.pkg_funcs():
+        if not (f.module.rel.startswith("_snapshot/") or f.module.rel.startswith("_adapter/")):
+            continue
+        calls = [c for c in body_nodes(f.node) if isinstance(c, ast.Call) and isinstance(c.func, ast.Attribute) and c.func.attr == "_token_of_node" and c.args]
+        if not calls:
+            continue
+        cfg = cfg_of(f)
+        for c in calls:
+            nn = cfg.nodes_containing(c)
+            if not nn:
+                continue
+            n += 1
+            e = norm(c.args[0])
+            guards = []
+            for cn in cfg.conds():
+                t = norm(cn.ast)
+                if t == f"{e} is not None" or t == e:
+                    guards.append((cn, "T"))
+                elif t == f"{e} is None":
+                    guards.append((cn, "F"))
+            # the call may sit in the condition that follows the guard in an `and` chain: the guard's edge then dominates that condition node
+            if guards and edges_dominate(cfg, guards, nn[0]):
+                rep.ok("R-NODE-NONE-GUARD", f, c, f"`{e}` is known not to be None")
+            else:
+                # a parameter that callers only pass when they hold a node (helper taking the node): judged where it is called
+                if isinstance(c.args[0], ast.Name) and c.args[0].id in f.params and f.parent is not None:
+                    pcfg = cfg_of(f.parent)
+                    ok_all = True
+                    for call in [x for x in body_nodes(f.parent.node) if isinstance(x, ast.Call) and isinstance(x.func, ast.Name) and x.func.id == f.name]:
+                        idx = f.params.index(c.args[0].id)
+                        a = call.args[idx] if idx < len(call.args) else None
+                        pn = pcfg.nodes_containing(call)
+                        if a is None or not pn:
+                            ok_all = False
+                            continue
+                        ae = norm(a)
+                        pg = [(cn, "T") for cn in pcfg.conds() if norm(cn.ast) in (f"{ae} is not None", ae)] + [(cn, "F") for cn in pcfg.conds() if norm(cn.ast) == f"{ae} is None"]
+                        if not (pg and edges_dominate(pcfg, pg, pn[0])):
+                            ok_all = False
+                    if ok_all:
+                        rep.ok("R-NODE-NONE-GUARD", f, c, f"`{e}`: every call of the helper passes a node that was tested")
+                        continue
+                    # the helper itself may test it
+                rep.violation("R-NODE-NONE-GUARD", f, c, f"`{short(c, 50)}` in {f.qualname} is not protected by a test that `{e}` is not None: for a snapshot in code without source (eval/exec) the node is None and the session ends with an AttributeError", construct=f"{f.qualname}:{e}")
+    rep.floor("R-NODE-NONE-GUARD", "_token_of_node call sites", n, 3)
